@@ -513,6 +513,143 @@ fn byte_exactness(rep: &mut Report, rng: &mut Rng, big: usize) {
     }
 }
 
+
+#[derive(Clone, Copy, Debug, PartialEq, Eq)]
+enum FsSt {
+    Absent,
+    Valid,
+    Undecodable,
+    /// a symbolic link to itself: the entry exists, reading it fails with ELOOP
+    Loop,
+    /// a directory where the file is expected: "a directory is not a file", i.e. absent
+    Dir,
+}
+
+/// E. the real `FileSystem` source with entries that exist but cannot be read
+/// (injecting faults needs no wrapper here: symbolic link loops fail for root too).
+fn real_fs_errors(rep: &mut Report) {
+    use assets_manager::source::FileSystem;
+    use assets_manager::LocalAssetCache;
+    let all = [FsSt::Absent, FsSt::Valid, FsSt::Undecodable, FsSt::Loop, FsSt::Dir];
+    let dir = crate::util::scratch_dir("c03fs");
+    let root = dir.canonicalize().expect("canonicalize scratch");
+    let exts2 = exts(2);
+    let mut case = 0;
+    for s0 in all {
+        for s1 in all {
+            for nested in [false, true] {
+                case += 1;
+                rep.eval();
+                let id = if nested { format!("sub.c{case}") } else { format!("c{case}") };
+                let base = if nested { root.join("sub") } else { root.clone() };
+                std::fs::create_dir_all(&base).unwrap();
+                let sts = [s0, s1];
+                for (ext, st) in exts2.iter().zip(sts) {
+                    let path = base.join(format!("c{case}.{ext}"));
+                    match st {
+                        FsSt::Absent => {}
+                        FsSt::Valid => std::fs::write(&path, format!("ok-{case}-{ext}")).unwrap(),
+                        FsSt::Undecodable => std::fs::write(&path, format!("!bad-{ext}")).unwrap(),
+                        FsSt::Loop => std::os::unix::fs::symlink(&path, &path).unwrap(),
+                        FsSt::Dir => std::fs::create_dir(&path).unwrap(),
+                    }
+                }
+                let scen = json!({"part": "real filesystem", "id": id, "extensions": exts2, "states": format!("{sts:?}")});
+                // what the statement asks for
+                let winner = sts.iter().position(|s| *s == FsSt::Valid);
+                let want: Result<&str, &str> = match winner {
+                    Some(i) => Ok(exts2[i]),
+                    None if sts.contains(&FsSt::Undecodable) => Err("conversion"),
+                    None if sts.contains(&FsSt::Loop) => Err("io"),
+                    None => Err("not-found"),
+                };
+                // an undecodable earlier extension does not stop the search, nor does an unreadable one
+                let fronts = ["AssetCache::new", "AssetCache::without_hot_reloading", "LocalAssetCache"];
+                for (fi, fname) in fronts.iter().enumerate() {
+                    let run = |default: bool| -> Result<V, E> {
+                        macro_rules! go {
+                            ($c:expr) => {
+                                if default {
+                                    $c.load::<Leaf<2, 1, true>>(&id).map(|h| h.read().v.clone()).map_err(|e| describe_error(&e))
+                                } else {
+                                    $c.load::<Leaf<2, 0, true>>(&id).map(|h| h.read().v.clone()).map_err(|e| describe_error(&e))
+                                }
+                            };
+                        }
+                        match fi {
+                            0 => match AssetCache::new(&root) {
+                                Ok(c) => go!(c),
+                                Err(e) => Err(E { id: "<cache>".into(), class: ErrClass::Other(e.to_string()) }),
+                            },
+                            1 => go!(AssetCache::without_hot_reloading(FileSystem::new(&root).unwrap())),
+                            _ => go!(LocalAssetCache::with_source(FileSystem::new(&root).unwrap())),
+                        }
+                    };
+                    let got = run(false);
+                    let ok = match (&got, &want) {
+                        (Ok(V::Leaf { ext, len, hash }), Ok(w)) => {
+                            let c = format!("ok-{case}-{w}");
+                            ext == w && *len == c.len() && *hash == content_hash(c.as_bytes())
+                        }
+                        (Err(e), Err(w)) => {
+                            e.id == id
+                                && match (*w, &e.class) {
+                                    ("conversion", ErrClass::Conversion) => true,
+                                    ("io", ErrClass::Io(_)) => true,
+                                    ("not-found", ErrClass::NotFound) => true,
+                                    _ => false,
+                                }
+                        }
+                        _ => false,
+                    };
+                    if !ok {
+                        let sig = if got.is_ok() != want.is_ok() { "C03/wrong-outcome" } else if got.is_ok() { "C03/wrong-value" } else { "C03/wrong-error" };
+                        rep.violation(
+                            "real-filesystem",
+                            &format!("{sig}:real-filesystem"),
+                            json!({"front": fname, "got": format!("{got:?}"), "expected": format!("{want:?}")}),
+                            scen.clone(),
+                        );
+                    }
+                    // with a default value every failure except a refused one becomes the default
+                    let gd = run(true);
+                    let okd = match (&gd, &want) {
+                        (Ok(V::Leaf { ext, .. }), Ok(w)) => ext == w,
+                        (Ok(V::LeafDefault), Err(_)) => true,
+                        _ => false,
+                    };
+                    if !okd {
+                        rep.violation(
+                            "real-filesystem",
+                            "C03/wrong-outcome:real-filesystem:default",
+                            json!({"front": fname, "got": format!("{gd:?}"), "expected": format!("{want:?} (default_value decides on failure)")}),
+                            scen.clone(),
+                        );
+                    }
+                    if let Err(w) = want {
+                        rep.seen("real_fs_error_classes", w);
+                    }
+                }
+                // repair: the first extension becomes a valid file, the same call then succeeds
+                if want.is_err() {
+                    let path = base.join(format!("c{case}.{}", exts2[0]));
+                    let _ = std::fs::remove_file(&path);
+                    let _ = std::fs::remove_dir(&path);
+                    std::fs::write(&path, format!("ok-{case}-{}", exts2[0])).unwrap();
+                    let c = AssetCache::without_hot_reloading(FileSystem::new(&root).unwrap());
+                    let got = c.load::<Leaf<2, 0, true>>(&id).map(|h| h.read().v.clone()).map_err(|e| describe_error(&e));
+                    if !matches!(&got, Ok(V::Leaf { ext, .. }) if ext == exts2[0]) {
+                        rep.violation("real-filesystem", "C03/not-recovered-after-repair:real-filesystem", json!({"got": format!("{got:?}")}), scen.clone());
+                    }
+                }
+                rep.nontrivial(mix(0xf5, case as u64));
+                rep.count("real_filesystem_cases", 1);
+            }
+        }
+    }
+    let _ = std::fs::remove_dir_all(dir);
+}
+
 pub fn run(args: &Args) -> Report {
     let mut rep = Report::new(args);
     rep.rule = "exhaustive product: extension list (0..3 entries incl. \"\") x per-extension file state {absent, \
@@ -564,6 +701,12 @@ pub fn run(args: &Args) -> Report {
     // ---- D. byte exactness
     if args.shard == 0 {
         byte_exactness(&mut rep, &mut rng, if miri { 300 } else if args.thorough() { 8 << 20 } else { 1 << 20 });
+    }
+
+    // ---- E. real filesystem, entries that exist but cannot be read
+    if !miri && args.shard == args.nshards - 1 {
+        real_fs_errors(&mut rep);
+        rep.floor_set("real_fs_error_classes", 3);
     }
 
     rep.floor_set("error_classes", if miri { 2 } else { 4 });
